@@ -48,7 +48,7 @@ def main():
                    "kind_free_text": "Lean 4 theorems about hand-written executable models; Python differential harness ties the models to /repo on every run"}],
       "checks": checks,
       "not_applicable": na,
-      "notes": "See DESIGN.md. Exit codes: 0 held, 1 violation (VIOLATION line), 2 harness problem/timeout.",
+      "notes": "See DESIGN.md. Exit codes: 0 held, 1 violation (VIOLATION line), 2 harness problem/timeout. Quick tier: when a source file the property is anchored in differs from the digest recorded in anchors.json (tools/record_anchors.py, refreshed after every fix: commit), a quiet run is followed by further correspondence rounds with fresh seeds inside a total budget of 280 s (VERIF_ESCALATE_BUDGET; VERIF_NO_ESCALATE=1 switches it off); on the recorded tree the run is unchanged. Evidence records source_drift and escalation_rounds.",
     }
     json.dump(man, open(os.path.join(HERE, "MANIFEST.json"), "w"), indent=1)
     print(len(checks), "claimed;", len(na), "pending")
